@@ -32,6 +32,8 @@ from ..lib import CheckResult, Violation, ring_matrix_to_numpy, ring_to_complex
 M = 3
 TOL = 1e-8
 PAULI = [None, qp.X, qp.Y, qp.Z]
+# number of qubits -> maximal circuit length enumerated by ShadowsGen.tla
+PLAN = {"quick": {1: 4, 2: 3}, "thorough": {1: 6, 2: 4, 3: 2}}
 
 
 def sc(x):
@@ -277,7 +279,7 @@ def device_traces(cases_by_n, rng, tier):
 
 def run(tier, seed):
     rng = random.Random(6000 + seed)
-    plan = {1: 4, 2: 3} if tier == "quick" else {1: 6, 2: 4, 3: 2}
+    plan = dict(PLAN[tier])
     hams = {n: gen_hams(rng, n) for n in plan}
     nw = max(2, int(lib.os.environ.get("VERIF_TLC_WORKERS", "16")) // len(plan))
 
